@@ -238,6 +238,7 @@ func (w *worker) exec(c *mc.Ctx, cs Case) {
 	}
 	res := s.Run(segment(stream, bounds, cs.Seg), netsim.EndEOF, nil)
 	kind, msg := Judge(res, exps)
+	c.Distinct("outcomes", fmt.Sprintf("handlers=%d|out=%dB|closed=%v|err=%v|%s", len(res.Seen), len(res.Out)/64*64, res.Closed, res.Err != nil, kind))
 	if kind != "" {
 		f := cs.Specs[0]
 		for _, sp := range cs.Specs {
